@@ -60,6 +60,9 @@ type FileSpec struct {
 	// that encode apply them (sub-second values are outside C06's domain).
 	SubSecond bool `json:"times_with_fraction,omitempty"`
 	ZonedUTC  bool `json:"utc_fields_in_zones,omitempty"`
+	// SameTime: in messages with a date_time and a local_date_time field
+	// both hold the identical zoned time.Time value (prof.SameTimes)
+	SameTime bool `json:"utc_and_local_field_hold_one_value,omitempty"`
 }
 
 // FileOpts steers GenFile.
